@@ -3,11 +3,13 @@
     fwd <catch:0|1> <name> <value>*     values run through Forwarders.Set in order, then (catch=1) the
                                         catch-all of run.go is appended; Get + Resolve for <name>
         → list=<String() of each entry, hex, comma separated | -> get=<index|none> calls=<indexes|-> ret=<n|noforwarder>
+    fwdq <catch:0|1> <payload> <value>*  the same for the query the proxy builds from a wire payload (query.New, error ignored)
     fmatch <domain> <name>              Resolver{Domain: domain}.Match(name)   → 0 | 1
   (all byte strings lowercase hex, empty = "-"; upstream identity = position in the final list;
    upstream number u answers n = 1000 + u, as the recording resolvers of the harness do)
 -/
 import NV.Model.Forwarder
+import NV.Model.Query
 import NV.Driver.Core
 namespace NV
 open NV.Fwd
@@ -21,12 +23,22 @@ def parseHexList : List String → Option (List Bytes)
     let r ← parseHexList ts
     pure (b :: r)
 
-def stepFwd (toks : List String) : Option String :=
+partial def stepFwd (toks : List String) : Option String :=
   match toks with
   | ["fmatch", d, n] =>
     match ofHex d, ofHex n with
     | some d, some n => some (boolStr (matchD d n))
     | _, _ => some "bad-op"
+  | "fwdq" :: ca :: pay :: vals =>
+    -- the query the proxy builds from a wire payload (parse errors are only logged): routing uses
+    -- the name as far as `query.parse` got (set before the additional section is looked at)
+    if ca ≠ "0" ∧ ca ≠ "1" then some "bad-op" else
+    match ofHex pay with
+    | none => some "bad-op"
+    | some p =>
+      match parse p with
+      | .outOfFuel => some "out-of-fuel"
+      | .done _ q => stepFwd ("fwd" :: ca :: toHexOrDash q.name :: vals)
   | "fwd" :: ca :: name :: vals =>
     if ca ≠ "0" ∧ ca ≠ "1" then some "bad-op" else
     match ofHex name, parseHexList vals with
